@@ -233,6 +233,8 @@ def Mux.writeData (m : Mux) (d : MuxerData) : MuxOut × Mux × MuxerData :=
   match m.ccOf d.pid with
   | none => ({ err := some .pidNotFound }, m, d)
   | some cc =>
+    -- a PES header that can never fit in one packet is rejected before anything is written
+    if 6 + calcPESOptionalHeaderLength d.pes.header.optionalHeader > 184 then ({ err := some .other }, m, d) else
     let force := (d.adaptationField.map (·.randomAccessIndicator)).getD false && d.pid == m.pcrPID
     match m.retransmitTables force with
     | (.err e, m1) => ({ err := some e }, m1, d)
